@@ -83,11 +83,16 @@ static void Tuple_New(var self, var args) {
   }
 #endif
   
+  /* Terminated at every moment: get may allocate (a source that makes its
+  ** items as it goes), and the collector then walks this Tuple */
+  t->items[0] = Terminal;
+  
   for (size_t i = 0; i < nargs; i++) {
-    t->items[i] = get(args, $I(i));
+    var item = get(args, $I(i));
+    t->items[i+1] = Terminal;
+    t->items[i] = item;
   }
   
-  t->items[nargs] = Terminal;
 }
 
 static void Tuple_Del(var self) {
@@ -123,21 +128,18 @@ static void Tuple_Assign(var self, var obj) {
     /* The new items are collected first and put in place at the end: get may
     ** refuse (a source whose get takes keys, not positions), and the source
     ** may be this Tuple itself or a view of it */
-    var* items = malloc(sizeof(var) * (nargs+1));
-    
-#if CELLO_MEMORY_CHECK == 1
-    if (items is NULL) {
-      throw(OutOfMemoryError, "Cannot allocate Tuple, out of memory!");
-    }
-#endif
+    /* (in a Tuple of their own, which the collector can see: get may make the
+    ** items as it goes) */
+    struct Tuple* tmp = new(Tuple);
     
     for (size_t i = 0; i < nargs; i++) {
-      items[i] = get(obj, $I(i));
+      Tuple_Push(tmp, get(obj, $I(i)));
     }
     
-    items[nargs] = Terminal;
-    free(t->items);
+    var* items = tmp->items;
+    tmp->items = t->items;
     t->items = items;
+    del(tmp);
   
   } else {
     
@@ -401,8 +403,12 @@ static void Tuple_Concat(var self, var obj) {
       t->items[nitems+i] = t->items[i];
     }
   } else {
+    /* Terminated at every moment: making the next item may allocate, and
+    ** the collector then walks this Tuple */
     size_t i = nitems;
     foreach (item in obj) {
+      if (i >= nitems+objlen) { break; }
+      t->items[i+1] = Terminal;
       t->items[i] = item;
       i++;
     }
